@@ -234,7 +234,8 @@ PROPS = {
                         'Gen/Consts.v regenerated from the Go source by kvharness translate (minWaitScrapeTimes, relief threshold table as exact '
                         'binary64)',
                         'Go map iteration = any permutation, weightedrand.Pick = any eligible shard (Base/Sched.v)']},
-    'C07': {   'assumptions': [   'series/total/limits below 2^53 (float64 products exact in Base/Float64.v); int32/int64 overflow not modelled',
+    'C07': {   'always_cmds': [['slowshard']],
+          'assumptions': [   'series/total/limits below 2^53 (float64 products exact in Base/Float64.v); int32/int64 overflow not modelled',
                        'explorer objects are not mutated within a cycle (value semantics; validated by the differential run)',
                        'time.Now() drift during the run is far below the idle-age margins used by the generator'],
     'engines': [('coord', 1200, 24000, ['-propok', 'c07_case', '-shardsize', '100']), ('k8s', 300, 6000)],
@@ -253,7 +254,7 @@ PROPS = {
             'limits, at the relief thresholds (1.1,1.4,1.6,1.8 x), tied with shard 0 on purpose; idle ages 30s..100000s vs max-idle 0/60/3600; '
             'min/max shard around the current count; explorer results present/absent/bad/unknown; failing POSTs and failing early scale request; '
             'malformed stream: min>max, max_proc=0. Membership under ALL schedules of the model (enumerated, budget 6000). non-trivial = the cycle '
-            'sent at least one target POST or requested a scale different from the current count; distinct by input || k8s engine (the shard list on which the ordinal reasoning of the coordinator rests): 60% ChangeScale, 20% Shards() with 0-12 pods in shuffled order (ordinal order is not name order from ten pods on), 20% Replicas()',
+            'sent at least one target POST or requested a scale different from the current count; distinct by input || slowshard, in every run (7 s): three shards, the middle one taking 3.5 s per request, the last one holding a target, idle time-out off: no scale request below three || k8s engine (the shard list on which the ordinal reasoning of the coordinator rests): 60% ChangeScale, 20% Shards() with 0-12 pods in shuffled order (ordinal order is not name order from ten pods on), 20% Replicas()',
     'theorems': 'C07_bounds C07_early_request_raises C07_keeps_used C07_holding_shard_kept C07_no_shrink',
     'trusted_base': [   'model Model/Coordinator.v hand-written from rebalance.go/coordinator.go/shard.go; tie = differential run of the real '
                         'Coordinator (hook VerifRunOnce) against scripted shards through Shard.APIGet/APIPost, compared under every schedule of the '
@@ -331,7 +332,8 @@ PROPS = {
        'engines': [('loop', 120, 3000, ['-shardsize', '10'])], 'rule': "one PRNG: limits (process 60/100/200, head none/half/equal), max-shard 4-6, min-shard 0-1, max-idle 0 or 600 s, relief (alleviation) disabled in 1 of 4; 1-5 (1-7) targets with sizes from 1 to limit-1 (total >= series), 1/9 unhealthy, 1/10 not discovered; 1-3 initial shards; initial placement empty (the system builds it) or ARBITRARY (each target on each shard with probability 1/3, 1/5 of the copies in_transfer: duplicates, pending transfers without partner, overload); a prefix of 0-4 events: rounds with or without a fault (a target update lost, a shard unreachable / not ready / refusing the configuration for that cycle), sidecar restarts (new process on the same store directory, default configuration), changes of the discovered set; then 14 fault-free rounds (cycle, every assigned copy scraped 3 times through the real proxy, 400 s pass). Real Coordinator (hook VerifRunOnce) against real TargetsManager+Service+Proxy per shard through Shard.APIGet/APIPost closures (JSON intact), a simulated StatefulSet following the last scale request, idle-since instants mapped between the world clock and the coordinator's clock. Observed after every step: every sidecar's /targets/status/ and /runtimeinfo/, POST bodies and scale requests of every cycle. non-trivial = all; distinct by input || bigshard, in every run: a real sidecar service takes an assignment of 4000 targets (a request body of 1.4 MB) and tracks and injects them all; waitloop: the cycle loop goes on after a cycle that returned an error", 'theorems': 'C03_place_or_grow C03_placed_or_counted C03_needed_space_grows_the_replica C03_relief_need_nonnegative C03_orphan_transfer_recovered C03_in_transfer_has_partner C03_tie_broken_by_position C03_one_normal_copy_after_cleaning C03_ripe_cycle_gives_clean_plan C03_world_follows_plan C03_ripe_world_becomes_clean C03_scrape_round_counts C03_settled_is_fixpoint C03_settled_updates_repeat_the_assignment C03_settled_world_unchanged C03_clean_from_the_second_round C03_cycle_places_or_grows C03_sizes_stay_counts C03_placed_or_at_cap C03_converges_in_regime C03_clean_held_world_is_settled C03_converged_stays (+ C03_settled_example, C03_converges_example, computed convergence example)', 'trusted_base': ["Model/World.v composes Model/Sidecar.v and Model/Coordinator.v with a StatefulSet and fault steps; it is run in LOCK STEP with the real closed loop: before every cycle the model builds the coordinator's input from ITS OWN sidecar states, the implementation's POST bodies / scale requests must be one of the model's outcomes (all schedules), and after every step every sidecar's reported state must equal the model's", 'the explorer and discovery are scripted by the harness (their behaviour is C20 / C17)', 'hooks: VerifRunOnce, VerifSetTimeNow'], 'assumptions': ['convergence bound: 14 fault-free rounds are enough for the generated sizes (<= 7 targets, <= 6 shards); a history that needs more would be reported as a violation', 'fairness: every assigned copy is scraped 3 times per round; a scale request takes effect before the next cycle; new shards start empty with the default configuration', 'the liveness statement itself (convergence within a bound from every well-formed world) is one theorem only in the regime without relief and consolidation (alleviation disabled, idle time-out 0): C03_converges_in_regime + C03_converged_stays; outside it see Properties/C03.v STATUS'], 'level_text': "Proof (partial): for every input and every iteration order - an eligible target that assignment visits is placed or its size is added to the needed space; needed space from relief is never negative; non-zero needed space with all shards in sync asks for more than the current count, and clamping keeps that below max-shard (place-or-grow for one whole cycle); an in_transfer copy without partner is normal after the recovery pass and nothing stays in_transfer without one; equal loads no longer keep both copies of a duplicate; the cleaning step as a whole - whatever the in-sync shards report of a discovered target (any number of duplicates, pending transfers with or without partner), once every copy was scraped three times it is on exactly one in-sync shard in normal state after this cycle's garbage collection and recovery pass, for every visiting order (C03_one_normal_copy_after_cleaning), and with no relief to do the whole planning part (gc, recovery, assignment) yields a clean plan - every entry a discovered target in normal state, no target on two shards (C03_ripe_cycle_gives_clean_plan); in the closed-loop model the sidecars hold exactly the final plan after a fault-free cycle (C03_world_follows_plan), so a ripe world with no relief to do is a clean world after ONE cycle (C03_ripe_world_becomes_clean); and the second half of the statement - a settled placement (all in sync, every copy of a discovered target in normal state on exactly one shard, no shard above a relief threshold, every discovered target held or not assignable, idle time-out off) is a fixpoint of the cycle under every schedule: no event, the scale request is the current count, whatever update is still sent repeats the reported assignment, and in the closed-loop model every sidecar keeps its status map and the shard count stays. BOUNDED CONVERGENCE AS ONE THEOREM in the regime without relief and consolidation (alleviation disabled, idle time-out 0, 0 < max-process, min-shard <= max-shard), over the closed-loop model: from EVERY well-formed world (duplicates, pending transfers, leftovers, any counters) and under EVERY iteration order, after max(2, max-shard - shards + 1) calm rounds the world is clean (every held target discovered, in normal state, on exactly one shard) and every eligible discovered target is held unless the replica reached max-shard (C03_converges_in_regime; steps C03_clean_from_the_second_round, C03_cycle_places_or_grows, C03_placed_or_at_cap, C03_sizes_stay_counts), and a clean world whose discovered targets are all held or unplaceable is settled and keeps its placement in every further round (C03_clean_held_world_is_settled, C03_converged_stays). Not proved: the bound outside that regime (relief / consolidation keep starting moves depending on the sizes of the workload); that is validated on the REAL closed loop (lock-step model agreement after every step, end states converged and stable).", 'level_note': 'Trusted: Coq kernel; hand-written closed-loop model validated in lock step; convergence is proved in the regime without relief / consolidation and checked on runs outside it.'},
     'C06': {   'always_cmds': [['waitloop']],
        'engines': [('loop', 120, 3000, ['-shardsize', '10', '-propok', 'c06_case'])], 'rule': "one PRNG: limits (process 60/100/200, head none/half/equal), max-shard 4-6, min-shard 0-1, max-idle 0 or 600 s, relief (alleviation) disabled in 1 of 4; 1-5 (1-7) targets with sizes from 1 to limit-1 (total >= series), 1/9 unhealthy, 1/10 not discovered; 1-3 initial shards; initial placement empty (the system builds it) or ARBITRARY (each target on each shard with probability 1/3, 1/5 of the copies in_transfer: duplicates, pending transfers without partner, overload); a prefix of 0-4 events: rounds with or without a fault (a target update lost, a shard unreachable / not ready / refusing the configuration for that cycle), sidecar restarts (new process on the same store directory, default configuration), changes of the discovered set; then 14 fault-free rounds (cycle, every assigned copy scraped 3 times through the real proxy, 400 s pass). Real Coordinator (hook VerifRunOnce) against real TargetsManager+Service+Proxy per shard through Shard.APIGet/APIPost closures (JSON intact), a simulated StatefulSet following the last scale request, idle-since instants mapped between the world clock and the coordinator's clock. Observed after every step: every sidecar's /targets/status/ and /runtimeinfo/, POST bodies and scale requests of every cycle. non-trivial = all; distinct by input || waitloop, in every run: the loop behind Coordinator.Run (utils/wait.RunUntil) with a cycle that returns an error (as a cycle does when Replicas() fails or no replica is listed): the loop goes on", 'theorems': 'C06_faults_preserve_wf_cycle C06_faults_preserve_wf_step C06_invariant_kept_by_faulty_cycle C06_no_target_lost_by_faults C06_no_target_in_transfer_for_ever C06_no_duplicate_for_ever C06_duplicate_resolved_in_one_cycle C06_one_copy_left_after_one_walk C06_none_unscraped C06_invariants_kept_by_every_history C06_recovers_after_faults (+ C06_recovers_example, computed recovery example)', 'trusted_base': ["Model/World.v composes Model/Sidecar.v and Model/Coordinator.v with a StatefulSet and fault steps; it is run in LOCK STEP with the real closed loop: before every cycle the model builds the coordinator's input from ITS OWN sidecar states, the implementation's POST bodies / scale requests must be one of the model's outcomes (all schedules), and after every step every sidecar's reported state must equal the model's", 'the explorer and discovery are scripted by the harness (their behaviour is C20 / C17)', 'hooks: VerifRunOnce, VerifSetTimeNow'], 'assumptions': ['convergence bound: 14 fault-free rounds are enough for the generated sizes (<= 7 targets, <= 6 shards); a history that needs more would be reported as a violation', 'fairness: every assigned copy is scraped 3 times per round; a scale request takes effect before the next cycle; new shards start empty with the default configuration', 'bounded recovery is one theorem only in the regime without relief and consolidation (alleviation disabled, idle time-out 0): C06_recovers_after_faults; outside it see Properties/C03.v STATUS'], 'level_text': 'Proof (partial): every fault step (lost update, unreachable / unready / out-of-sync shard, restart, scaling) and every cycle with any POST bodies keeps every sidecar well formed (C10 invariant), for all histories; the whole-world invariant is kept by every faulty cycle of the model under every schedule, and through every such history a discovered target that some sidecar holds is never lost (C06_no_target_lost_by_faults: composition of C01, C07, C08, C10); the states faults leave behind and the original code never left - an in_transfer copy without partner, equally loaded duplicates - are left in one cycle; an unscraped eligible target is placed or the replica grows. BOUNDED RECOVERY AS ONE THEOREM in the regime without relief and consolidation (alleviation disabled, idle time-out 0): after ANY history of cycles with faults under any iteration order, scrape rounds, ticks, sidecar restarts and changes of the discovered set, max(2, max-shard - shards + 1) calm rounds make the world clean and every eligible discovered target held by exactly one shard in normal state unless max-shard is reached (C06_recovers_after_faults, resting on C06_invariants_kept_by_every_history and the C03 convergence theorem). Not proved: the bound outside that regime (inherits C03); validated on the real closed loop with injected faults followed by 14 fault-free rounds.', 'level_note': 'Trusted: Coq kernel; hand-written closed-loop model validated in lock step; recovery is proved in the regime without relief / consolidation and checked on runs outside it.'},
-    'C11': {
+    'C11': {   'always_cmds': [['injectorder']],
+       
         'engines': [('inject', 300, 6000, ['-shardsize', '50']), ('sidecar', 200, 4000, ['-propok', 'c10_case', '-shardsize', '100'])],
         'rule': 'one PRNG: configuration TEXTS with/without global (+external labels, one of them with a value a generic YAML decoder re-types: 0755, 1.10, yes, 1e3, 0x1F, ~, 007, +1, on, a date, 0o17, 1_000, .5, No), 0-2 rule files, alerting with an Alertmanager using none/basic/'
                 'authorization/bearer credentials, 0-3 (0-5) jobs each with scheme, path, interval/timeout, sample limit, honor flags, 0-2 params, '
@@ -343,7 +345,7 @@ PROPS = {
                 'Injector (ApplyConfig then UpdateTargets, or - one case in three - the assignment first, as after a restart without a configuration file) after a HISTORY of 0-2 earlier configurations/assignments on the same injector (fresh ones, '
                 'or copies differing only in external labels / in a non-job secret / in the assignment); the written file is loaded with '
                 'config.Load and projected like the input; non-job sections are compared as generic documents and as loaded structs; the file '
-                'is searched for every job secret. non-trivial = >= 1 job; distinct by input || sidecar engine, wired as cmd/kvass/sidecar.go wires the binary: the REAL injector is the first update callback of the targets manager and the reload callback of the configuration manager (a restart makes a new one; configuration before or after the stored assignment, alternating); after every operation the generated file is loaded as Prometheus would and must list, per job, exactly the hashes the model holds (updates that repeat, empty, drop whole jobs, fail in a later callback; restarts)',
+                'is searched for every job secret. non-trivial = >= 1 job; distinct by input || injectorder, in every run: an assignment of 12000 targets and, while it is being written, one of 1 target, on the real injector: the file holds the later one (skipped when the machine writes the large one in under 150 ms) || sidecar engine, wired as cmd/kvass/sidecar.go wires the binary: the REAL injector is the first update callback of the targets manager and the reload callback of the configuration manager (a restart makes a new one; configuration before or after the stored assignment, alternating); after every operation the generated file is loaded as Prometheus would and must list, per job, exactly the hashes the model holds (updates that repeat, empty, drop whole jobs, fail in a later callback; restarts)',
         'theorems': 'C11_jobs C11_names C11_job_fields C11_static_entry C11_no_job_secret C11_rest C11_sections_kept C11_generated_file_lists_the_assignment C11_generated_file_after_update',
         'trusted_base': ['Model/Inject.v hand-written from injector.go at the granularity of the property: ingestion-relevant settings, relabeling and TLS '
                          'are opaque fingerprints computed by the same Go projection on input and output; tie = exact equality of the projected job list '
